@@ -155,19 +155,25 @@ def refGet (maxTTL : Int) (hist : List Op) (k : Key) : Option Val :=
 
 /-! ## Concurrent model: labelled transition system
 
-`Set`, `Get`, `Delete` are single atomic map operations (haxmap's per-key atomicity is trusted);
-the clock advances atomically. `Cleanup` and `Reset` are NOT atomic: a cleaner (a manual caller —
-any number of them — or the periodic goroutine, id 0) reads the clock, then `ForEach` visits keys
-one at a time reading each key's *current* entry (`cVisit`), the snapshot ends (`cSeal`, the
-`verifhook` point), then the collected keys are removed one by one (`cDelOne`), then the call
-returns (`cEnd`). The coarse reading "snapshot the keys, then bulk delete" is the special case in
-which all visits, resp. all deletes, happen back to back (`snapLabels`, `bulkLabels`).
+Nothing in ttlcache.go is atomic except the single map operations (haxmap's per-key atomicity is
+trusted) and the clock:
+* `Get` reads the map (`gRead`) and THEN the clock (`gNow`) and compares;
+* `Set` reads the clock (`sNow`) and THEN stores (`sStore`);
+* `Delete` is one map operation; the clock advances atomically;
+* a cleaner (`Cleanup`/`Reset` of a manual caller — any number of them — or of the periodic
+  goroutine, id 0) starts (`cNow`: reads the clock, ForEach begins), `ForEach` visits keys one at a
+  time reading each key's *current* entry (`cVisit`; every key stored when ForEach began is visited
+  before it ends: `todo`), the snapshot ends (`cSeal`, the `verifhook` point), the collected keys are
+  removed one by one (`cDelOne`), the call returns (`cEnd`). "Snapshot the keys, then bulk delete"
+  is the special case `snapLabels` / `bulkLabels`.
+Any number of callers may be inside `Get`, `Set`, `Stop`, `Cleanup`, `Reset` at once.
 
 Ghost state (no transition's enabledness or effect on `m`/`now` depends on it):
-`stamp` — every successful `Set` tags its entry with a fresh number (the count of Sets so far); `ref` — the map as
-the callers' history defines it (Set puts, Delete removes, a Reset removing the very entry it
-visited removes); `raced` — entries removed by a cleaner although they were written after the
-cleaner had visited the key (the documented cleanup/refresh race). -/
+`stamp` — every store tags its entry with a fresh number; `ref` — the map as the callers' operations
+define it (a store puts, Delete removes, a Reset deleting the very entry it visited removes);
+`raced` — entries removed by a cleaner although they were stored after the cleaner had visited the
+key (the documented cleanup/refresh race); `stamp0` of a cleaner / getter — the stamp counter when
+its ForEach began / when it read the map; `resetFloor` — the largest `stamp0` of a completed Reset. -/
 
 inductive Phase where
   | started | scanning | deleting
@@ -180,19 +186,41 @@ structure Cleaner where
   now0 : Int
   /-- collected keys, each with the stamp of the entry the visit saw -/
   keys : List (Key × Nat)
+  /-- keys stored when ForEach began and not visited yet -/
+  todo : List Key
+  stamp0 : Nat
+  deriving Repr, DecidableEq
+
+/-- A `Set` that has read the clock and not stored yet. -/
+structure Setter where
+  id : Nat
+  k : Key
+  v : Val
+  ttl : Int
+  exp : Int
+  deriving Repr, DecidableEq
+
+abbrev SEntry := Entry × Nat
+
+/-- A `Get` that has read the map and not the clock yet. -/
+structure Getter where
+  id : Nat
+  k : Key
+  read : Option SEntry
+  stamp0 : Nat
   deriving Repr, DecidableEq
 
 inductive Bg where
   | idle | cleaning | exited
   deriving Repr, DecidableEq
 
-abbrev SEntry := Entry × Nat
-
 structure CState where
   m : AMap SEntry
   now : Int
   maxTTL : Int
   cls : List Cleaner
+  setters : List Setter
+  getters : List Getter
   period : Int
   nextTick : Int
   tickPending : Bool
@@ -205,6 +233,7 @@ structure CState where
   ref : AMap SEntry
   stamp : Nat
   raced : List (Key × Nat)
+  resetFloor : Nat
   deriving Repr
 
 /-- `NewCache`: a non-positive interval is replaced by the default (regenerated guard and value). -/
@@ -212,14 +241,16 @@ def effPeriod (period : Int) : Int :=
   if Src.intervalDefaultCmp.rel period Src.intervalDefaultBound then Src.intervalDefaultNs else period
 
 def CState.init (maxTTL t0 period : Int) : CState :=
-  { m := [], now := t0, maxTTL := maxTTL, cls := [], period := effPeriod period,
-    nextTick := t0 + effPeriod period,
+  { m := [], now := t0, maxTTL := maxTTL, cls := [], setters := [], getters := [],
+    period := effPeriod period, nextTick := t0 + effPeriod period,
     tickPending := false, tickerStopped := false, bg := .idle, stopClosed := false,
-    runningClosed := false, stoppers := [], ref := [], stamp := 0, raced := [] }
+    runningClosed := false, stoppers := [], ref := [], stamp := 0, raced := [], resetFloor := 0 }
 
 inductive Label where
-  | set (k : Key) (v : Val) (ttl : Int)
-  | get (k : Key) (r : Option Val)
+  | sNow (id : Nat) (k : Key) (v : Val) (ttl : Int)
+  | sStore (id : Nat) (k : Key) (v : Val) (ttl : Int)
+  | gRead (id : Nat) (k : Key)
+  | gNow (id : Nat) (k : Key) (r : Option Val)
   | delete (k : Key)
   | advance (d : Nat)
   | cBegin (id : Nat) (isReset : Bool)
@@ -234,16 +265,22 @@ inductive Label where
   | stopReturn (caller : Nat)
   deriving Repr, DecidableEq
 
-/-- What `Get k` returns in state `s`. -/
-def getOfC (s : CState) (k : Key) : Option Val :=
-  match mget s.m k with
-  | some (e, _) => if Src.getHitCmp.rel e.exp s.now then some e.val else none
+/-- What the comparison in `Get` yields for the entry it read, at clock value `now`. -/
+def serve (read : Option SEntry) (now : Int) : Option Val :=
+  match read with
+  | some (e, _) => if Src.getHitCmp.rel e.exp now then some e.val else none
   | none => none
+
+/-- What an (imaginary) atomic `Get k` would return in state `s`: the stored view. -/
+def getOfC (s : CState) (k : Key) : Option Val := serve (mget s.m k) s.now
 
 def findCl (cls : List Cleaner) (id : Nat) : Option Cleaner := cls.find? (fun c => c.id == id)
 
 def updCl (cls : List Cleaner) (id : Nat) (f : Cleaner → Cleaner) : List Cleaner :=
   cls.map (fun c => if c.id = id then f c else c)
+
+def findSetter (l : List Setter) (id : Nat) : Option Setter := l.find? (fun x => x.id == id)
+def findGetter (l : List Getter) (id : Nat) : Option Getter := l.find? (fun x => x.id == id)
 
 /-- Next ticker instant strictly after `now'` (ticks in between are dropped, as `time.Ticker` does). -/
 def nextTickAfter (next period now' : Int) : Int := next + ((now' - next) / period + 1) * period
@@ -256,11 +293,29 @@ def visit (m : AMap SEntry) (c : Cleaner) (k : Key) : Cleaner :=
   | none => c
 
 def cstep (s : CState) : Label → Option CState
-  | .set k v ttl =>
-      if badTTL ttl then none else
-      let e : SEntry := ({ val := v, exp := s.now + durNs s.maxTTL ttl }, s.stamp)
-      some { s with m := mput s.m k e, ref := mput s.ref k e, stamp := s.stamp + 1 }
-  | .get k r => if getOfC s k = r then some s else none
+  | .sNow id k v ttl =>
+      if badTTL ttl ∨ (findSetter s.setters id).isSome then none else
+      some { s with setters := { id := id, k := k, v := v, ttl := ttl,
+                                 exp := s.now + durNs s.maxTTL ttl } :: s.setters }
+  | .sStore id k v ttl =>
+      match findSetter s.setters id with
+      | some x =>
+          if x.k = k ∧ x.v = v ∧ x.ttl = ttl then
+            let e : SEntry := ({ val := v, exp := x.exp }, s.stamp)
+            some { s with m := mput s.m k e, ref := mput s.ref k e, stamp := s.stamp + 1,
+                          setters := s.setters.filter (fun y => y.id != id) }
+          else none
+      | none => none
+  | .gRead id k =>
+      if (findGetter s.getters id).isSome then none else
+      some { s with getters := { id := id, k := k, read := mget s.m k, stamp0 := s.stamp } :: s.getters }
+  | .gNow id k r =>
+      match findGetter s.getters id with
+      | some g =>
+          if g.k = k ∧ serve g.read s.now = r then
+            some { s with getters := s.getters.filter (fun y => y.id != id) }
+          else none
+      | none => none
   | .delete k =>
       some { s with m := mdelKeys s.m [k], ref := mdelKeys s.ref [k] }
   | .advance d =>
@@ -271,26 +326,30 @@ def cstep (s : CState) : Label → Option CState
       else some { s with now := now' }
   | .cBegin id r =>
       if id = 0 ∨ (findCl s.cls id).isSome then none else
-      some { s with cls := { id := id, isReset := r, phase := .started, now0 := 0, keys := [] } :: s.cls }
+      some { s with cls := { id := id, isReset := r, phase := .started, now0 := 0, keys := [],
+                             todo := [], stamp0 := 0 } :: s.cls }
   | .cNow id =>
       match findCl s.cls id with
       | some c =>
           if c.phase = .started then
-            some { s with cls := updCl s.cls id (fun c => if c.phase = .started then { c with phase := .scanning, now0 := s.now } else c) }
+            some { s with cls := updCl s.cls id (fun c => if c.phase = .started then
+                     { c with phase := .scanning, now0 := s.now, todo := mkeys s.m, stamp0 := s.stamp } else c) }
           else none
       | none => none
   | .cVisit id k =>
       match findCl s.cls id with
       | some c =>
           if c.phase = .scanning then
-            some { s with cls := updCl s.cls id (fun c => if c.phase = .scanning then visit s.m c k else c) }
+            some { s with cls := updCl s.cls id (fun c => if c.phase = .scanning then
+                     { visit s.m c k with todo := c.todo.filter (fun x => x != k) } else c) }
           else none
       | none => none
   | .cSeal id =>
       match findCl s.cls id with
       | some c =>
-          if c.phase = .scanning then
-            some { s with cls := updCl s.cls id (fun c => if c.phase = .scanning then { c with phase := .deleting } else c) }
+          if c.phase = .scanning ∧ c.todo = [] then
+            some { s with cls := updCl s.cls id (fun c => if c.phase = .scanning ∧ c.todo = [] then
+                     { c with phase := .deleting } else c) }
           else none
       | none => none
   | .cDelOne id k st =>
@@ -314,13 +373,15 @@ def cstep (s : CState) : Label → Option CState
       | some c =>
           if c.phase = .deleting ∧ c.keys = [] then
             some { s with cls := s.cls.filter (fun c => c.id != id),
-                          bg := if id = 0 then .idle else s.bg }
+                          bg := if id = 0 then .idle else s.bg,
+                          resetFloor := if c.isReset then max s.resetFloor c.stamp0 else s.resetFloor }
           else none
       | none => none
   | .bgTake =>
       if s.bg = .idle ∧ s.tickPending = true ∧ (findCl s.cls 0).isNone then
         some { s with tickPending := false, bg := .cleaning,
-                      cls := { id := 0, isReset := false, phase := .started, now0 := 0, keys := [] } :: s.cls }
+                      cls := { id := 0, isReset := false, phase := .started, now0 := 0, keys := [],
+                               todo := [], stamp0 := 0 } :: s.cls }
       else none
   | .bgExit =>
       if s.bg = .idle ∧ s.stopClosed = true then
@@ -350,13 +411,19 @@ inductive Reach (maxTTL t0 period : Int) : CState → Prop where
   | step {s s' : CState} (l : Label) : Reach maxTTL t0 period s → cstep s l = some s' →
       Reach maxTTL t0 period s'
 
-/-- The callers' history inside a run: the labels that are operations of the sequential
-reference (`Reset`/`Cleanup` are not atomic here and do not appear). -/
+/-- The callers' history inside a run: a `Set` counts where it stores, `Delete` and the clock's
+advances where they happen (`Reset`/`Cleanup` are not atomic here and do not appear). -/
 def projOp : Label → Option Op
-  | .set k v ttl => some (.set k v ttl)
+  | .sStore _ k v ttl => some (.set k v ttl)
   | .delete k => some (.delete k)
   | .advance d => some (.advance d)
   | _ => none
+
+/-- Total clock advance in a piece of history. -/
+def advSum : List Op → Nat
+  | [] => 0
+  | .advance d :: rest => d + advSum rest
+  | _ :: rest => advSum rest
 
 /-- The coarse "snapshot" step of cleaner `id`: read the clock, visit every stored key, seal. -/
 def snapLabels (s : CState) (id : Nat) : List Label :=
@@ -370,17 +437,22 @@ def bulkLabels (s : CState) (id : Nat) : List Label :=
 
 /-! ## The scheduled-interleaving acceptor (what `kitdrv C15` runs for `cnew …` scripts)
 
-The harness executes a script of requests on the real cache (cleaners parked at the hook point)
-and sends the same requests here; `respond` answers by *running labels of the LTS* and reports what
-the harness must have observed. A real trace is accepted iff every answer equals the observed one;
-`KitProofs` shows the labels executed form a run of the LTS (`accepted_trace_is_run`), so every
-theorem about `Reach`/`crun` applies to every accepted real trace. -/
+The harness executes a script of requests on the real cache (cleaners parked at the hook point,
+`Get`/`Set` callers parked at the clock) and sends the same requests here; `respond` answers by
+*running labels of the LTS* and reports what the harness must have observed. A real trace is
+accepted iff every answer equals the observed one; `KitProofs` shows the labels executed form a
+run of the LTS (`accepted_trace_is_run`), so every theorem about `Reach`/`crun` applies to every
+accepted real trace. -/
 
 inductive Req where
   | set (k : Key) (v : Val) (ttl : Int)
   | get (k : Key)
   | del (k : Key)
   | adv (d : Nat)
+  | sbegin (id : Nat) (k : Key) (v : Val) (ttl : Int)   -- a Set that has read the clock, parked before the store
+  | send (id : Nat) (k : Key) (v : Val) (ttl : Int)
+  | gbegin (id : Nat) (k : Key)                         -- a Get that has read the map, parked before the clock
+  | gend (id : Nat) (k : Key)
   | cbegin (id : Nat) (isReset : Bool)
   | cfinish (id : Nat)
   | bgsnap
@@ -436,13 +508,29 @@ def tickOf (s : CState) (d : Nat) : Tick :=
     (if s.tickPending then .drop else .sent)
   else .none
 
+def respOfGet : Option Val → Resp
+  | some v => .hit v
+  | none => .miss
+
 def respond (s : CState) : Req → Answer
-  | .set k v ttl => if badTTL ttl then ⟨s, .panic, []⟩ else tryRun s [.set k v ttl] (fun _ => .ok)
+  | .set k v ttl =>
+      if badTTL ttl then ⟨s, .panic, []⟩
+      else tryRun s [.sNow 0 k v ttl, .sStore 0 k v ttl] (fun _ => .ok)
   | .get k =>
       let r := getOfC s k
-      tryRun s [.get k r] (fun _ => match r with | some v => .hit v | none => .miss)
+      tryRun s [.gRead 0 k, .gNow 0 k r] (fun _ => respOfGet r)
   | .del k => tryRun s [.delete k] (fun _ => .ok)
   | .adv d => tryRun s [.advance d] (fun _ => .ticked (tickOf s d))
+  | .sbegin id k v ttl =>
+      if badTTL ttl then ⟨s, .panic, []⟩
+      else if id = 0 then ⟨s, .error, []⟩ else tryRun s [.sNow id k v ttl] (fun _ => .ok)
+  | .send id k v ttl => if id = 0 then ⟨s, .error, []⟩ else tryRun s [.sStore id k v ttl] (fun _ => .ok)
+  | .gbegin id k => if id = 0 then ⟨s, .error, []⟩ else tryRun s [.gRead id k] (fun _ => .ok)
+  | .gend id k =>
+      if id = 0 then ⟨s, .error, []⟩ else
+      match findGetter s.getters id with
+      | some g => let r := serve g.read s.now; tryRun s [.gNow id k r] (fun _ => respOfGet r)
+      | none => ⟨s, .error, []⟩
   | .cbegin id r => tryRun s ([.cBegin id r] ++ snapLabels s id) (snapResp id)
   | .cfinish id => if id = 0 then ⟨s, .error, []⟩ else tryRun s (bulkLabels s id) (fun _ => .ok)
   | .bgsnap => tryRun s ([.bgTake] ++ snapLabels s 0) (snapResp 0)
@@ -464,10 +552,11 @@ def drive (s : CState) : List Req → CState × List Resp × List Label
     let (s', resps, ls) := drive a.state rs
     (s', a.resp :: resps, a.labels ++ ls)
 
-/-- The caller operation a request stands for in the sequential reference (a `Set` with a bad ttl
-panics and is no operation). -/
+/-- The caller operation a request stands for in the sequential reference: a `Set` counts where it
+stores (an atomic `set`, or the `send` of a split one); a `Set` with a bad ttl panics and is none. -/
 def reqOp : Req → Option Op
   | .set k v ttl => if badTTL ttl then none else some (.set k v ttl)
+  | .send _ k v ttl => some (.set k v ttl)
   | .del k => some (.delete k)
   | .adv d => some (.advance d)
   | _ => none
